@@ -12,7 +12,7 @@ AST (tuples):
     ("range", lo|None, hi|None, inclusive)  ("macro", name, toks)  ("tuple", [es])
     ("block", [stmts], tail|None)  ("if", cond, then, else|None)   cond may be ("letcond", pat, e)
     ("match", scrut, [(pat, guard|None, body)])
-    ("loop", label|None, block)  ("while", label|None, cond, block)
+    ("loop", label|None, block)  ("while", label|None, cond, block)  ("for", pat, iter_expr, block)
     ("break", label|None, e|None)  ("continue", label|None)  ("return", e|None)
     ("struct", path, [(field, e)])  ("closure", [params], e)  ("try", e)  ("ref", mut, e)
   statements
@@ -440,6 +440,12 @@ class RParser:
             self.eat()
             cond = self.parse_cond()
             return ("while", None, cond, self.parse_block())
+        if v == "for":
+            self.eat()
+            pat = self.parse_pattern()
+            self.eat("in")
+            it = self.parse_expr(no_struct=True)
+            return ("for", pat, it, self.parse_block())
         if v == "break":
             self.eat()
             lab = self.eat()[1] if self.peek()[0] == "lifetime" else None
@@ -577,7 +583,7 @@ class RParser:
                 stmts.append(("expr", e))
             elif self.done() or self.at(closer):
                 tail = e
-            elif e[0] in ("if", "match", "loop", "while", "block"):
+            elif e[0] in ("if", "match", "loop", "while", "block", "for"):
                 stmts.append(("expr", e))
             else:
                 raise TranslationError("statement not terminated near: " + norm(self.t[max(0, self.i - 8):self.i + 8]))
